@@ -6,6 +6,8 @@ import (
 	"encoding/json"
 	"flag"
 	"fmt"
+	"io"
+	"log"
 	"os"
 	"os/exec"
 	"path/filepath"
@@ -131,6 +133,7 @@ func runSeed(batch uint64, id string, i uint64) uint64 {
 }
 
 func runWorker(h Harness, tier string, seed uint64, spec string) {
+	log.SetOutput(io.Discard) // the code under test logs before it panics
 	parts := strings.Split(spec, ",")
 	start, _ := strconv.ParseUint(parts[0], 10, 64)
 	stride, _ := strconv.ParseUint(parts[1], 10, 64)
@@ -168,6 +171,7 @@ func runOne(h Harness, tier string, path string) {
 		fmt.Fprintln(os.Stderr, err)
 		os.Exit(2)
 	}
+	log.SetOutput(io.Discard)
 	ch := choice.Replay(trace)
 	res := SafeRun(h, ch, Options{Tier: tier, Verbose: true})
 	_ = json.NewEncoder(os.Stdout).Encode(oneOut{Res: res, Consumed: ch.Trace()})
@@ -371,7 +375,9 @@ func runBatch(h Harness, tier string, seed uint64, runsOverride, budgetS int) in
 		ev.add(l)
 		if l.Res.HarnessBug != "" {
 			harnessBugs++
-			fmt.Fprintf(os.Stderr, "HARNESS BUG in run %d: %s\n", l.I, l.Res.HarnessBug)
+			if harnessBugs <= 2 {
+				fmt.Fprintf(os.Stderr, "HARNESS BUG in run %d: %s\n", l.I, tail(l.Res.HarnessBug, 3000))
+			}
 			continue
 		}
 		if l.Res.Failed() {
@@ -457,6 +463,7 @@ func matchKnown(known []knownFinding, id string, r Result) *knownFinding {
 }
 
 func minimiseAndWrite(h Harness, tier string, seed uint64, f failure) (string, bool, string) {
+	log.SetOutput(io.Discard)
 	meta := h.Meta()
 	rs := runSeed(seed, h.ID(), f.idx)
 
